@@ -332,7 +332,7 @@ def _strategy(tier):
 
 CLAUSES = [
     Clause(
-        "history", _strategy, check_history, quick=150, thorough=400, shards_quick=4,
+        "history", _strategy, check_history, quick=150, thorough=3000, shards_quick=4,
         rule="history with at least one removal (edge or node) and at least one re-insertion of "
              "an existing hyperedge key or a keep_edges=True shrink; distinct by canonical JSON "
              "of the whole case",
